@@ -134,6 +134,9 @@ class Crazyflie():
         self._answer_patterns = {}
 
         self._send_lock = Lock()
+        # Thread that is inside send_packet() and a link error it got reported while there
+        self._send_lock_owner = None
+        self._deferred_link_error = None
 
         self.connected_ts = None
 
@@ -210,6 +213,13 @@ class Crazyflie():
 
     def _link_error_cb(self, errmsg):
         """Called from the link driver when there's an error"""
+        if self._send_lock_owner is current_thread():
+            # The driver reports the error from inside send_packet(). Handle it when the
+            # send lock has been released, the disconnect callbacks must not run with it held
+            # (they wait for threads and locks whose owners may be waiting to send).
+            self._deferred_link_error = errmsg
+            return
+
         logger.warning('Got link error callback [%s] in state [%s]',
                        errmsg, self.state)
         if (self.link is not None):
@@ -350,6 +360,7 @@ class Crazyflie():
             raise Exception('Data part of packet is too large')
 
         self._send_lock.acquire()
+        self._send_lock_owner = current_thread()
         try:
             # Use a local reference, the link can be closed by another thread at any time
             link = self.link
@@ -383,7 +394,13 @@ class Crazyflie():
                 link.send_packet(pk)
                 self.packet_sent.call(pk)
         finally:
+            deferred_link_error = self._deferred_link_error
+            self._deferred_link_error = None
+            self._send_lock_owner = None
             self._send_lock.release()
+
+        if deferred_link_error is not None:
+            self._link_error_cb(deferred_link_error)
 
     def is_called_by_incoming_handler_thread(self):
         return current_thread() == self.incoming
